@@ -31,6 +31,13 @@
 #include "urcu-die.h"
 
 #include "workqueue.h"
+#ifdef URCU_VERIF
+#include <urcu/verif.h>
+#else
+#ifndef urcu_verif_point
+#define urcu_verif_point(id, ctx) do { } while (0)
+#endif
+#endif
 
 #define SET_AFFINITY_CHECK_PERIOD		(1U << 8)	/* 256 */
 #define SET_AFFINITY_CHECK_PERIOD_MASK		(SET_AFFINITY_CHECK_PERIOD - 1)
@@ -193,6 +200,7 @@ static void *workqueue_thread(void *arg)
 			if (workqueue->worker_before_pause_fct)
 				workqueue->worker_before_pause_fct(workqueue, workqueue->priv);
 			cmm_smp_mb__before_uatomic_or();
+			urcu_verif_point(URCU_VP_WQ_PAUSE, workqueue);
 			uatomic_or(&workqueue->flags, URCU_WORKQUEUE_PAUSED);
 			while ((uatomic_read(&workqueue->flags) & URCU_WORKQUEUE_PAUSE) != 0)
 				(void) poll(NULL, 0, 1);
@@ -229,6 +237,7 @@ static void *workqueue_thread(void *arg)
 		if (!rt) {
 			if (cds_wfcq_empty(&workqueue->cbs_head,
 					&workqueue->cbs_tail)) {
+				urcu_verif_point(URCU_VP_WQ_PRE_SLEEP, workqueue);
 				futex_wait(&workqueue->futex);
 				uatomic_dec(&workqueue->futex);
 				/*
